@@ -132,7 +132,13 @@ func ValidatePluginResponses(pluginResponses []*PluginResponse) error {
 				continue
 			}
 			fileName := filepath.Join(pluginResponse.PluginOut, file.GetName())
-			if pluginName, ok := seen[fileName]; ok {
+			// Files are identified by where they will be written: two plugins may name the same
+			// out directory differently ("gen", "./gen", "$PWD/gen").
+			fileKey := fileName
+			if absFileName, err := filepath.Abs(fileName); err == nil {
+				fileKey = absFileName
+			}
+			if pluginName, ok := seen[fileKey]; ok {
 				return fmt.Errorf(
 					"file %q was generated multiple times: once by plugin %q and again by plugin %q",
 					fileName,
@@ -140,7 +146,7 @@ func ValidatePluginResponses(pluginResponses []*PluginResponse) error {
 					pluginResponse.PluginName,
 				)
 			}
-			seen[fileName] = pluginResponse.PluginName
+			seen[fileKey] = pluginResponse.PluginName
 		}
 		// Note: we used to verify that the plugin set min/max edition correctly if it set the
 		// SUPPORTS_EDITIONS feature. But some plugins in the protoc codebase, from when editions
